@@ -80,8 +80,40 @@ def queries(tier):
     from . import c14
     for q in c14.queries(tier):
         q.name = 'user shape ' + q.name
+        q.harness = _only_c04(q.harness)
         qs.append(q)
     return qs
+
+
+class _C04Leaf:
+    """a view of the leaf that keeps only the obligations C04 itself states (raised while `in_c04` is set); the call-protocol
+    obligations of the shared harness belong to C14 and are decided and confirmed there"""
+
+    def __init__(self, L):
+        self.__dict__['_L'] = L
+        self.__dict__['in_c04'] = False
+
+    def __getattr__(self, k):
+        return getattr(self._L, k)
+
+    def __setattr__(self, k, v):
+        if k == 'in_c04':
+            self.__dict__[k] = v
+        else:
+            setattr(self._L, k, v)
+
+    def check(self, label, claim, case=None):
+        return self._L.check(label, claim, case) if self.in_c04 else True
+
+    def fail(self, label, case=None):
+        if self.in_c04:
+            self._L.fail(label, case)
+
+
+def _only_c04(h):
+    def wrapped(L, **kw):
+        return h(_C04Leaf(L), **kw)
+    return wrapped
 
 
 def native_request(v):
